@@ -1,5 +1,5 @@
 """Registry: property id -> rule set, level and explanations."""
-from . import p_symbols, p_rs
+from . import p_symbols, p_rs, p_charset
 
 PROPS = {}
 
@@ -32,6 +32,32 @@ PROPS["C06"] = {
                      "existing tests ecc_block_1 and test_error_code pin the LFSR for k=5"],
     "assumptions": ["default cargo features"],
     "technique": "constant-table proof obligations + structural wiring rules over THIR",
+}
+
+PROPS["C15"] = {
+    "level": "other",
+    "rules": [p_charset.tab_iso, p_charset.tab_dispatch, p_charset.tab_eci],
+    "explanation": "Decided in full: the ISO-8859-9/-11 per-byte decision tables composed with the table constants equal the "
+                   "standard mappings for all 256 byte values (control/undefined bytes give CharsetError, no index can leave the "
+                   "table); the ECI dispatch maps 0/3, 11, 13, 26, 27 to the right decoder and passes 26/27 bytes through unchanged. "
+                   "ECI designators: write_eci and read_eci are loop-free; their bodies are reduced as decision lists over the "
+                   "designator value / the designator bytes. quick: all range and radix-block boundaries plus every 211th number, "
+                   "reader for all first x second bytes and boundary third bytes; thorough: all 10^6 numbers and all 3-byte sequences. "
+                   "Any overflow/underflow a designator byte can cause is reported as a trap.",
+    "assumptions": ["default cargo features", "String::push / Vec::push append", "core::str::from_utf8 validates UTF-8"],
+    "technique": "decision-table extraction from THIR + finite-domain folding of loop-free bodies against transcribed ISO tables",
+}
+
+PROPS["C14"] = {
+    "level": "other",
+    "rules": [p_charset.tab_l1, p_charset.str_branch, p_charset.tab_dispatch],
+    "explanation": "Clause-level claim. Decided: both Latin-1 helper tables equal ISO-8859-1 on every code point / byte and are mutually "
+                   "inverse (third sentence of the property, in full); encode_str takes the Latin-1 branch without ECI exactly when "
+                   "utf8_to_latin1 succeeds and the UTF-8 branch with ECI 26 otherwise, and the ECI header is written iff requested "
+                   "(second sentence, structurally); the decoder dispatches ECI 0/3 and 26 to the matching converters. NOT decided: "
+                   "the string round trip itself (first sentence) - it depends on the data round trip (C01) whose core is not static.",
+    "assumptions": ["default cargo features"],
+    "technique": "decision-table extraction from THIR + call-structure rules",
 }
 
 NOT_APPLICABLE = {
